@@ -228,9 +228,6 @@ def run(ctx):
     for sc, r in zip(rscs, rres):
         ctx.count(); ctx.cls("reply/" + sc["flavor"])
         if r.get("results") in ("PANIC", "HANG") or "error" in r:
-            # the tokio client has no read deadline (F20): a reply cut short leaves it waiting; that is C20's finding
-            if r.get("results") == "HANG" and sc["flavor"] == "tokio":
-                continue
             obad.append((sc["flavor"], "the client %s on the server reply %r at %s" % (r.get("results", r.get("error")), unhx(sc["w"])[:60], sc["pos"]), json.dumps({k: sc[k] for k in ("flavor", "servers", "ops", "timeout_ms")})[:5000]))
     ctx.cov["oracle"]["hostile_replies_over_tcp"] = {"scenarios": len(rscs)}
     ctx.cov["oracle"]["hostile_inputs_and_scaling"] = {"hostile_lines": len(lines), "builds": [b for b, _ in builds], "scale_points": sum(len(v) for v in rows.values()), "failures": len(obad), "known_class_hits": hits,
